@@ -31,7 +31,9 @@ RULE = ('scripted models (1-4 variables, 1-5 periods) run as a sequence of 1-5 c
         'TRACE_NAME in {free names, every variable, status, iterations} x 0-3 variables x 0-3 periods (exhaustive); linkers over 1-3 traced scripted '
         'submodels solved once or twice with trace= / reset= (labels = pass numbers, twin linker without the keywords); finally parser-built '
         '(C01-grammar) models — 12 scripts with lags (1, 2), leads (1, 2), parameters, 1/X, log, exp, sqrt, max (contractive, divergent, faulting), '
-        'multi-character names — whose generated _evaluate is the inner oracle: the columns it leaves after every pass (recorded on the untraced '
+        'multi-character names; TracerMixin stacked on AliasMixin with trace= / TRACE_VARIABLES given by alias names (an alias is read as the '
+        'variable it denotes); spans held in a list, a NumPy array or a pandas Index; a further user keyword passed to ~25% of the calls and the '
+        'keywords every user hook receives recorded on both sides — whose generated _evaluate is the inner oracle: the columns it leaves after every pass (recorded on the untraced '
         'twin) become the action script of the Coq model for that run. Non-trivial = some call ran >= 2 evaluation passes or ended in an '
         'exception; distinct by hash of the whole case.')
 TRUSTED = ['scripted-model subclasses harness/scripted.py + harness/scripted_tracer.py (the same scripts are the Coq oracles; the Recorder layer '
@@ -49,7 +51,8 @@ ASSUMPTIONS = ['the user\'s _evaluate / solve_t_before / solve_t_after modify va
                '`if trace:` raise ValueError only when tracing (reproduced; outside the quantifier; candidate repair in /verif/fixes)',
                'reset=True contents are pinned by K only (the property does not constrain them); the oracle judges reset=False contents',
                't lies inside the span for the twin comparison (outside it trace_t\'s IndexError precedes every check of the base class)',
-               'span = list of int labels (list.index lookup); start/end of solve() are labels of the span',
+               'span = int labels held in a Python list, a NumPy array or a pandas Index (the three lookup routes of _locate_period_in_span); '
+               'labels are distinct',
                'reference semantics of Python lists as in TracerNames.v: list(x) allocates a new object, in-place edits change exactly the object edited']
 EXHAUSTIVE = {'quick': False, 'thorough': False}
 CASE_TIMEOUT = 30
@@ -59,18 +62,19 @@ STALE_SIG = 'C17|TracerMixin.trace_t<-solve*|stale-names-on-repeated-solve|snaps
 
 
 # --------------------------------------------------------------------------- the trace= argument
-def py_trace(a):
+def py_trace(a, alias=False):
     k = a[0]
+    nm = 'A%d' if alias else 'V%d'                  # alias names (AliasMixin stacked under the tracer) or the variables' own
     if k == 'none':
         return None
     if k == 'flag':
         return bool(a[1])
     if k == 'name':
-        return 'V%d' % a[1]
+        return nm % a[1]
     if k == 'list':
-        return ['V%d' % i for i in a[1]]
+        return [(nm if j % 2 == 0 else 'V%d') % i for j, i in enumerate(a[1])]
     if k == 'tuple':
-        return tuple('V%d' % i for i in a[1])
+        return tuple(nm % i for i in a[1])
     if k == 'empty_str':
         return ''
     if k == 'genexp':                 # a generator: truthy, not a Sequence -> never iterated, the default names are traced
@@ -168,20 +172,23 @@ def impl(case):
         return impl_linker(case)
     if case.get('kind') == 'rx':
         return impl_rx(case)
-    cls = st.make_classes(case['nvars'], case['check'], case['endo'], case.get('lags', 0), case.get('leads', 0), case.get('trace_variables'))
+    cls = st.make_classes(case['nvars'], case['check'], case['endo'], case.get('lags', 0), case.get('leads', 0), case.get('trace_variables'),
+                          aliases=bool(case.get('aliases')), alias_tv=case.get('aliases') == 'tv')
     n = case['n']
-    span = list(range(2000, 2000 + n))
-    m = st.instantiate(cls, span, case['vals'], case['status'], case['iters'], case['scripts'])     # traced instance
-    u = st.instantiate(cls, span, case['vals'], case['status'], case['iters'], case['scripts'])     # untraced twin
+    span = _make_span(case.get('span_kind', 'list'), range(2000, 2000 + n))
+    m = st.instantiate(cls, _make_span(case.get('span_kind', 'list'), span), case['vals'], case['status'], case['iters'], case['scripts'])     # traced instance
+    u = st.instantiate(cls, _make_span(case.get('span_kind', 'list'), span), case['vals'], case['status'], case['iters'], case['scripts'])     # untraced twin
     steps = []
     specs = []
     for call in case['calls']:
         kw = _opts_kw(call['opts'])
+        if call.get('tag') is not None:
+            kw['tag'] = int(call['tag'])            # a further user keyword: must reach every hook, traced or not
         tkw = dict(kw)
         a = call.get('trace', ['omit'])
         spec = None
         if a[0] != 'omit':
-            spec = tkw['trace'] = py_trace(a)
+            spec = tkw['trace'] = py_trace(a, alias=bool(case.get('aliases')))
             specs.append(spec)
         if call.get('reset') is not None:
             tkw['reset'] = bool(call['reset'])
@@ -193,11 +200,14 @@ def impl(case):
                         sp.append('V0')
                         sp.reverse()
         ncol = len(m.__dict__['_columns'])
+        nkw_m, nkw_u = len(m.__dict__.get('_kwlog', [])), len(u.__dict__.get('_kwlog', []))
         olds = [(t, len(t.index) == 0) for t in m.__dict__['_trace']]
         out_m = _run(m, call, tkw)
         out_u = _run(u, call, kw) if call['entry'] not in DIRECT else ['ret', None]
         s = _snapshot(m, case['nvars'])
         s['out'] = out_m
+        s['kwlog'] = m.__dict__.get('_kwlog', [])[nkw_m:]
+        s['twin_kwlog'] = u.__dict__.get('_kwlog', [])[nkw_u:]
         s['traces'] = st.observe_traces(m, lib.fhex)
         s['frames'] = _frames(m, st.name_id)
         s['alias'] = _alias_obs(m, olds, spec)
@@ -210,6 +220,18 @@ def impl(case):
     return {'steps': steps, 'names_follow_edits': _names_follow_edits(m, specs)}
 
 
+def _make_span(kind, labels):
+    """The span object: a Python list (span.index), a NumPy array (fsic's static fallback lookup) or a pandas Index (get_loc)."""
+    if kind == 'array':
+        import numpy as np
+        return np.array([int(x) for x in labels])
+    if kind == 'index':
+        import pandas as pd
+        return pd.Index([int(x) for x in labels])
+    return [int(x) for x in labels]
+
+
+SPAN_KIND = {'list': 0, 'array': 1, 'index': 3}
 DIRECT = ('trace_t', 'trace_period')
 STATE_OPS = ('assign', 'copy', 'reindex', 'edit_spec', 'add_variable')          # what a user does between solves
 
@@ -226,7 +248,7 @@ def _state_op(m, call, span):
         return m
     if e == 'copy':
         return m.copy()
-    return m.reindex(list(span))                                                      # the same span: a new instance, equal contents
+    return m.reindex(list(span) if isinstance(span, list) else span.copy())             # the same span (a new span object of the same kind)
 
 
 # --------------------------------------------------------------------------- reindex() / copy() of a traced instance
@@ -729,8 +751,8 @@ def c_case17(case, obs):
                                               lib.clist(c_trace(t) for t in s['traces']), c_res(call, s['out']),
                                               sc.c_state(tw['vals'], tw['status'], tw['iters'], tw['log']), c_res(call, tw['out']),
                                               lib.clist(c_fobs(f, t) for f, t in zip(s['frames'], s['traces']))))
-    return '(mkCase17 %s %s %s %s %s %s %s)' % (
-        sc.c_scripts(case['scripts']), cfg, span, sc.c_desc(case),
+    return '(mkCase17 %s %s %s %s %s %s %s %s)' % (
+        sc.c_scripts(case['scripts']), cfg, lib.cnat(SPAN_KIND[case.get('span_kind', 'list')]), span, sc.c_desc(case),
         sc.c_state(case['vals'], case['status'], case['iters'], []),
         lib.clist(c_call(case, c) for c in case['calls']), lib.clist(xs))
 
@@ -832,8 +854,8 @@ def explain(case, obs):
     span = lib.clist(lib.cZ(2000 + i) for i in range(case['n']))
     tv = case.get('trace_variables')
     cfg = '(mkTCfg %s)' % ('None' if tv is None else '(Some %s)' % lib.clist(lib.cnat(i) for i in tv))
-    return lib.coq_eval('explain17', PREAMBLE, 'run_calls %s %s %s %s %s %s (repeat (empty_trace float) %s)' % (
-        sc.c_scripts(case['scripts']), cfg, span, sc.c_desc(case), lib.clist(c_call(case, c) for c in case['calls']),
+    return lib.coq_eval('explain17', PREAMBLE, 'run_calls %s %s %s %s %s %s %s (repeat (empty_trace float) %s)' % (
+        sc.c_scripts(case['scripts']), cfg, lib.cnat(SPAN_KIND[case.get('span_kind', 'list')]), span, sc.c_desc(case), lib.clist(c_call(case, c) for c in case['calls']),
         sc.c_state(case['vals'], case['status'], case['iters'], []), lib.cnat(case['n'])))[-4000:]
 
 
@@ -955,6 +977,17 @@ def oracle(case, obs):
             bad(KNOWN_SIG, 'call %d: %s(..., trace=%r) raises ValueError (np.hstack in Trace.append) because period %d was traced before with '
                 '%d name(s); the same call without trace= gives %s' % (ci, ent, py_trace(a), p0, len(prev['traces'][p0]['values'][0]), tw['out']))
             break
+        if s.get('kwlog') != s.get('twin_kwlog'):
+            bad('C17|TracerMixin|hooks-receive-other-keywords-when-traced', 'call %d: the user hooks of the traced run received %s, those of the untraced run %s'
+                % (ci, [e for e in s['kwlog'] if e not in s['twin_kwlog']][:2], [e for e in s['twin_kwlog'] if e not in s['kwlog']][:2]))
+            break
+        want_extra = [['tag', int(call['tag'])]] if call.get('tag') is not None else []
+        for hk, t_, it_, er_, cf_, rest_, nargs_ in s.get('kwlog') or []:
+            if er_ != call['opts']['errors'] or cf_ != call['opts']['catch_first_error'] or rest_ != want_extra or it_ is None or nargs_:
+                bad('C17|TracerMixin|keyword-not-forwarded-to-hook', 'call %d: hook %s at t=%d received iteration=%r errors=%r catch_first_error=%r extra=%r, '
+                    'the caller passed errors=%r catch_first_error=%r extra=%r' % (ci, hk, t_, it_, er_, cf_, rest_, call['opts']['errors'],
+                                                                                 call['opts']['catch_first_error'], want_extra))
+                break
         if not same:
             diff = [k for k in ('out', 'vals', 'status', 'iters', 'log') if s[k] != tw[k]]
             bad('C17|TracerMixin|traced-differs-from-untraced', 'call %d (trace=%r, reset=%r): traced and untraced runs differ in %s: traced out=%s, untraced out=%s'
@@ -1519,6 +1552,9 @@ def _random_case(rng, scen):
     elif r < 0.18:
         tv = [0, nv + 1]                       # an unknown name in TRACE_VARIABLES
     c = _case(nvars=nv, check=check, endo=endo, n=n, lags=lags, leads=leads, trace_variables=tv)
+    c['span_kind'] = rng.choice(['list'] * 6 + ['array'] * 2 + ['index'] * 2)      # the span object: list.index / the array fallback / pandas get_loc
+    if rng.random() < 0.12 and (tv is None or all(i < nv for i in tv)):
+        c['aliases'] = rng.choice([True, 'tv'])     # AliasMixin stacked under the tracer; trace= (and TRACE_VARIABLES) use alias names
     palette = sc.PALETTE_FINITE
     for p in range(n):
         if rng.random() < 0.7:
@@ -1568,6 +1604,7 @@ def _random_case(rng, scen):
                 a = ['flag', True]
         reset = rng.choice([None, None, False, True])
         entry = rng.choice(['solve_t', 'solve_t', 'solve_period', 'solve'])
+        tag = rng.randrange(1, 9) if rng.random() < 0.25 else None
         if entry == 'solve':
             lo = rng.randrange(n)
             hi = rng.randrange(n)
@@ -1585,6 +1622,8 @@ def _random_case(rng, scen):
             calls.append(cl)
         else:
             calls.append(_call(entry, p, n, o, a, reset, neg=rng.random() < 0.3))
+        if tag is not None:
+            calls[-1]['tag'] = tag
     # histories: between two calls the user assigns a whole series, copies or reindexes the instance
     if len(calls) >= 2 and rng.random() < 0.35:
         for _ in range(rng.choice([1, 1, 2])):
